@@ -37,6 +37,7 @@ def main (args : List String) : IO UInt32 := do
   match args with
   | ["time"] => loopPure stdin stdout timeStep; return 0
   | ["hash"] => loopPure stdin stdout hashStep; return 0
+  | "crash" :: _ => loopState stdin stdout crashStep ({} : CrashSt); return 0
   | ["store", backend] =>
     match storeInit backend with
     | some st => loopState stdin stdout storeStep st; return 0
